@@ -198,7 +198,7 @@ class Abstraction:
         self._cur_refs = []      # flow names referred to by the top-level instance being read
         self.create_at = []      # (index sheet, row number) of each entry of create_rows
         self.flow_names = []     # per entry of create_rows: the flow names it defines
-        # position classes (see positions()): what a fault at a sheet / an index row sits in
+        # position classes (see position_of()): what a fault at a sheet / an index row sits in
         self.sheet_pos = {}
         self.index_pos = {}
         self._defs = {}
@@ -252,7 +252,7 @@ class Abstraction:
                     return
                 cname = row.get("new_name", "").strip() or names[0]
                 self.campaigns[cname] = [r["flow"].strip() for r in self.sheets[names[0]]["rows"] if r.get("flow", "").strip()]
-                self._dup("campaign", cname, [names[0]], (name, row_no))
+                self._dup("campaign definition", cname, [names[0]], (name, row_no))
             elif t == "create_triggers":
                 # stored under the sheet name: listing a sheet twice keeps one parser (at the first position)
                 self.index.append({"k": "ref", "name": names[0]})
@@ -260,30 +260,30 @@ class Abstraction:
                     self.dead = True
                     return
                 self.trigger_sheets[names[0]] = [r.get("flow", "").strip() for r in self.sheets[names[0]]["rows"]]
-                self._dup("triggers", names[0], [names[0]], (name, row_no))
+                self._dup("trigger sheet", names[0], [names[0]], (name, row_no))
             else:
                 self.unsupported.append("index row type " + t)
 
-    # -- position classes: is the thing defined here defined again by a later row / already by an earlier one
-    LATER, EARLIER = "definition that a later row redefines", "definition that redefines an earlier row"
-    BOTH = "definition that redefines and is redefined (chain middle, or a sheet shared by both kinds)"
-    SHORT = {LATER: "redefined later", EARLIER: "redefines earlier", BOTH: "both"}
+    # -- position classes: is the thing defined here defined again by a later index row / already by an earlier one
+    LATER, EARLIER, BOTH = "redefined by a later row", "redefines an earlier row", "redefines and is redefined (or shared by both)"
+    KINDS = ("flow definition", "campaign definition", "trigger sheet")
 
     def _dup(self, kind, key, sheets, at):
         """register a definition of `key` (a flow / campaign name, a trigger sheet) made by index row `at` from `sheets`"""
         prev = self._defs.setdefault((kind, key), [])
         for (sh2, at2) in prev:
             for s2 in sh2:
-                self.sheet_pos.setdefault(s2, set()).add(self.LATER)
-            self.index_pos.setdefault(at2, set()).add(self.LATER)
+                self.sheet_pos.setdefault(s2, set()).add((kind, self.LATER))
+            self.index_pos.setdefault(at2, set()).add((kind, self.LATER))
         if prev:
             for s1 in sheets:
-                self.sheet_pos.setdefault(s1, set()).add(self.EARLIER)
-            self.index_pos.setdefault(at, set()).add(self.EARLIER)
+                self.sheet_pos.setdefault(s1, set()).add((kind, self.EARLIER))
+            self.index_pos.setdefault(at, set()).add((kind, self.EARLIER))
         prev.append((list(sheets), at))
 
-    def position_of(self, site, wbf=None):
-        """position classes of an injection site (as described by the fault generators)"""
+    def position_of(self, site) -> str:
+        """position class of an injection site (as described by the fault generators): '' for an ordinary position,
+        else e.g. 'flow definition redefined by a later row' / 'campaign definition redefines an earlier row'"""
         out = set()
         sh = site.get("sheet")
         for s1 in (sh if isinstance(sh, list) else [sh] if sh else []):
@@ -297,7 +297,12 @@ class Abstraction:
             how = site.get("how", "")
             if how.startswith("delete sheet file "):
                 out |= self.sheet_pos.get(how[len("delete sheet file "):], set())
-        return sorted(out)
+        labels = []
+        for kind in self.KINDS:
+            ps = {p for k, p in out if k == kind}
+            if ps:
+                labels.append(kind + " " + (self.BOTH if len(ps) > 1 else ps.pop()))
+        return " + ".join(labels)
 
     @staticmethod
     def argdef(d):
@@ -434,7 +439,7 @@ class Abstraction:
                 names = [f"{base} - {i}" for i in self.reg.get(ds, [])] if ds and not rid else [f"{base} - {rid}" if ds and rid else base]
                 self.flow_names.append(names)
                 for nm in names:
-                    self._dup("flow", nm, [n], at)
+                    self._dup("flow definition", nm, [n], at)
         insts = [i for fd in flows for i in fd["insts"]]
         last = {i["name"]: k for k, i in enumerate(insts)}
         known = set(last) | {r for k, i in enumerate(insts) if last[i["name"]] == k for r in i["refs"]} \
